@@ -1,6 +1,6 @@
 #!/usr/bin/env python3
 """selftest/translator_variants.py [name ...]: the translator channel (bin/extract + bin/rust2lean.py + the theorems of
-Lemmas/SourceReassembly.lean, Lemmas/SourceProtocol.lean, Lemmas/SourceReceivers.lean, Lemmas/SourceDecoders.lean and Lemmas/SourceEncoders.lean) tried on scratch copies of /repo/src with small edits of the
+Lemmas/SourceReassembly.lean, Lemmas/SourceProtocol.lean, Lemmas/SourceReceivers.lean, Lemmas/SourceDecoders.lean, Lemmas/SourceEncoders.lean and Lemmas/SourceFrame.lean) tried on scratch copies of /repo/src with small edits of the
 translated functions: behaviour-preserving rewrites (R*: every theorem must still check, or the function must drop out of the
 translatable subset) and property-breaking edits (B*: the theorem named must break, unless the function drops out).
 Nothing is written to /repo or to the Lean project (bin/srccheck compiles into a private directory). Prints one line per
@@ -19,6 +19,8 @@ BC = open("/repo/src/event/bcm.rs").read()
 RL = open("/repo/src/event/relay.rs").read()
 PG = open("/repo/src/event/programmer.rs").read()
 GE = open("/repo/src/event/general.rs").read()
+FR = open("/repo/src/frame.rs").read()
+FSIZE = "if frame.len() < 5 || frame.len() != frame[4] as usize + 5 || frame[4] > 8 {"
 EV_SIZE5 = """        if packet.data.len() != 5 {
             return Err(ConvertPacketError::WrongSize);
         }
@@ -236,6 +238,16 @@ VARIANTS = {
     "ev-B10-data-no-min-length": ("event/general.rs", rep(GE, "        if packet.data.len() < 6 {\n            return Err(ConvertPacketError::WrongSize);\n        }\n\n", ""), "src_decode_data"),   # the defect D3 of the pinned tree
     "ev-B11-data-length-unchecked": ("event/general.rs", rep(GE, "        if packet.data.len() != data_len as usize + 6 {\n            return Err(ConvertPacketError::WrongSize);\n        }\n\n", ""), "src_decode_data"),
     "ev-B12-data-copy-from-5": ("event/general.rs", rep(GE, "data[i] = packet.data[i + 6];", "data[i] = packet.data[i + 5];"), "src_decode_data"),
+    # ---- frame.rs: from_usart_frame after the COBS decoding
+    "fr-R1-size-test-reordered": ("frame.rs", rep(FR, FSIZE, "if frame.len() < 5 || frame[4] > 8 || frame.len() != frame[4] as usize + 5 {"), None),
+    "fr-R2-mask-hex": ("frame.rs", rep(FR, "let start_frame_flag = ((frame[0] >> 6) & 0x01) != 0;", "let start_frame_flag = ((frame[0] >> 6) & 1) != 0;"), None),
+    "fr-R3-data-len-first": ("frame.rs", rep(FR, "        let device_address = ((frame[2] as u16) << 8) | frame[3] as u16;\n        let data_len = frame[4];", "        let data_len = frame[4];\n        let device_address = ((frame[2] as u16) << 8) | frame[3] as u16;"), None),
+    "fr-B1-length-above-8-accepted": ("frame.rs", rep(FR, FSIZE, "if frame.len() < 5 || frame.len() != frame[4] as usize + 5 {"), "src_fromUsartBody_eq"),   # the defect D2 of the pinned tree
+    "fr-B2-index-before-length-test": ("frame.rs", rep(FR, FSIZE, "if frame.len() != frame[4] as usize + 5 || frame.len() < 5 || frame[4] > 8 {"), "src_fromUsartBody_eq"),
+    "fr-B3-start-bit-5": ("frame.rs", rep(FR, "let start_frame_flag = ((frame[0] >> 6) & 0x01) != 0;", "let start_frame_flag = ((frame[0] >> 5) & 0x01) != 0;"), "src_fromUsartBody_eq"),
+    "fr-B4-id-kinds-swapped": ("frame.rs", rep(FR, "        let frame_id = if start_frame_flag {\n            FrameId::LastFrameId((((frame[0] & 0x0f) as u16) << 8) | frame[1] as u16)\n        } else {\n            FrameId::CurrentFrameId(", "        let frame_id = if !start_frame_flag {\n            FrameId::LastFrameId((((frame[0] & 0x0f) as u16) << 8) | frame[1] as u16)\n        } else {\n            FrameId::CurrentFrameId("), "src_fromUsartBody_eq"),
+    "fr-B5-address-shift-in-u8": ("frame.rs", rep(FR, "let device_address = ((frame[2] as u16) << 8) | frame[3] as u16;", "let device_address = ((frame[2] << 8) as u16) | frame[3] as u16;"), "src_fromUsartBody_eq"),
+    "fr-B6-data-from-4": ("frame.rs", rep(FR, "data[i] = frame[i + 5];", "data[i] = frame[i + 4];"), "src_fromUsartBody_eq"),
     # ---- event encoders
     "en-R1-vec-new": ("event/button.rs", rep(BU, "        let mut data = vec![];\n\n        for byte in u16::to_be_bytes(BUTTON_PRESSED_EVENT_CODE)", "        let mut data = Vec::new();\n\n        for byte in u16::to_be_bytes(BUTTON_PRESSED_EVENT_CODE)"), None),
     "en-B1-error-flag-set": ("event/button.rs", rep(BU, "            is_error: false,\n            device_address: self.receiver_address,", "            is_error: true,\n            device_address: self.receiver_address,"), "src_encode_buttonPressed"),
